@@ -66,20 +66,30 @@ type closeEvent struct {
 	code  network.ConnErrorCode
 	plain bool  // Close() instead of CloseWithError
 	force int32 // number of ForceTrim calls in flight when the close happened (concurrent test)
+	gid   uint64 // goroutine that made the call (trimoverlap_test.go; a trim closes on its caller's goroutine)
 }
 
 type recorder struct {
 	mu          sync.Mutex
 	closes      []closeEvent
 	forceActive atomic.Int32
+	// trimoverlap_test.go: set while no trim is running, read by the closing goroutines
+	tagGID bool
+	hook   func(closeEvent) // called after the close was recorded, on the closing goroutine
 }
 
 func (r *recorder) record(ev closeEvent) {
 	ev.at = time.Now()
 	ev.force = r.forceActive.Load()
+	if r.tagGID {
+		ev.gid = curGID()
+	}
 	r.mu.Lock()
 	r.closes = append(r.closes, ev)
 	r.mu.Unlock()
+	if r.hook != nil {
+		r.hook(ev)
+	}
 }
 
 func (r *recorder) mark() int {
@@ -784,6 +794,14 @@ func (c config) pastGrace(firstSeen, now time.Time) bool {
 // judgeBatch checks one trim against the statement. snaps = peers with tracked
 // connections at the time of the trim; closed = connections closed by it.
 func judgeBatch(cfg config, kind trimKind, now time.Time, snaps []peerSnap, batch []closeEvent) string {
+	return judgeBatchX(cfg, kind, now, snaps, batch, nil, false)
+}
+
+// judgeBatchX: also = connections closed by other trims before this one returned (overlapping
+// trims, trimoverlap_test.go): they are not "left" when this trim returns, whoever closed them.
+// forceIgnoresGrace: for the bound on what a ForceTrim leaves, every unprotected peer is eligible
+// (ForceTrim documents that it ignores the grace period).
+func judgeBatchX(cfg config, kind trimKind, now time.Time, snaps []peerSnap, batch []closeEvent, also map[*fakeConn]bool, forceIgnoresGrace bool) string {
 	closed := map[*fakeConn]bool{}
 	for _, ev := range batch {
 		closed[ev.c] = true
@@ -861,12 +879,20 @@ func judgeBatch(cfg config, kind trimKind, now time.Time, snaps []peerSnap, batc
 	if count > cfg.low {
 		left := 0
 		for _, s := range snaps {
-			if eligible(s) {
-				left += len(s.conns) - nclosed(s)
+			if eligible(s) || (forceIgnoresGrace && kind == trimForce && !s.protected) {
+				for _, c := range s.conns {
+					if !closed[c] && !also[c] {
+						left++
+					}
+				}
 			}
 		}
 		if left > cfg.low {
-			return fmt.Sprintf("%v with %d connections (low watermark %d) left %d connections open among the eligible peers", kind, count, cfg.low, left)
+			among := "the eligible peers"
+			if forceIgnoresGrace && kind == trimForce {
+				among = "the unprotected peers (a forced trim ignores the grace period)"
+			}
+			return fmt.Sprintf("%v with %d connections (low watermark %d) left %d connections open among %s when it returned", kind, count, cfg.low, left, among)
 		}
 	}
 	return ""
